@@ -43,9 +43,6 @@ def Date.le (a b : Date) : Prop := a = b ∨ a.lt b
 instance (a b : Date) : Decidable (a.lt b) := by unfold Date.lt; exact inferInstance
 instance (a b : Date) : Decidable (a.le b) := by unfold Date.le; exact inferInstance
 
-/-- milliseconds since midnight -/
-def Time.toMs (t : Time) : Nat := ((t.h * 60 + t.mi) * 60 + t.s) * 1000 + t.ms
-
 /-- a well-formed time of day (no leap second) -/
 def Time.Valid (t : Time) : Prop := t.h < 24 ∧ t.mi < 60 ∧ t.s < 60 ∧ t.ms < 1000
 
